@@ -56,7 +56,7 @@ def step_rec(st, lines=False, extra=None):
 def judge(ctx, recs, k=0):
     wd = ctx.sub("clijudge-%d-%d" % (k, random.getrandbits(30)))
     vlib.write_ndjson(os.path.join(wd, "recs.ndjson"), recs)
-    r = vlib.tlc(ctx, "SpokCLIJudge", "INIT JInit\nNEXT JNext\n", workers=1, timeout=1800, workdir=wd, dump_trace=False, heap="4g")
+    r = vlib.tlc(ctx, "SpokCLIJudge", "INIT JInit\nNEXT JNext\nCONSTANTS MaxFlags = 1\n", workers=1, timeout=1800, workdir=wd, dump_trace=False, heap="4g")
     vp = os.path.join(wd, "verdict.json")
     if r.error or not os.path.exists(vp):
         raise Machinery("SpokCLIJudge failed: %s" % (r.error or r.out[-2500:]))
@@ -76,8 +76,8 @@ def judge_all(ctx, recs, chunk=1500):
 
 def mc_cli(ctx):
     """the abstract machine: frame facts + scenario export"""
-    r = vlib.tlc(ctx, "SpokCLI", "SPECIFICATION CSpec\nINVARIANTS EmitScen\nPROPERTIES FmtOnlyWhenValid CacheOnlyByRuns ReadOnlyActions\nCHECK_DEADLOCK FALSE\n",
-                 workers=4, timeout=600, dump_trace=False)
+    r = vlib.tlc(ctx, "SpokCLI", "SPECIFICATION CSpec\nCONSTANTS MaxFlags = %d\nINVARIANTS EmitScen\nPROPERTIES FmtOnlyWhenValid CacheOnlyByRuns ReadOnlyActions "
+                 "InitNeverOverwrites\nCHECK_DEADLOCK FALSE\n" % (2 if ctx.tier == "quick" else 3), workers=4, timeout=900, dump_trace=False)
     if r.error or r.violated:
         raise Machinery("SpokCLI model check failed: %s %s" % (r.violated, (r.error or "")[:1500]))
     scen = set()
@@ -96,8 +96,8 @@ SPOK_VALID_UNFMT = '#A variable\nNAME:="value"\n\n\n#Say hello\ntask   hello( "*
 SPOK_SYNTAXBAD = 'NAME := "value\ntask hello( {\n'
 SPOK_LOADBAD = 'NAME := nope("x")\ntask hello() {\n    echo hello\n}\n'
 KIND_TEXT = {"formatted": SPOK_VALID_FMT, "unformatted": SPOK_VALID_UNFMT, "syntaxbad": SPOK_SYNTAXBAD, "loadbad": SPOK_LOADBAD}
-ACT_ARGV = {"none": [], "tasks": ["hello"], "show": ["--show"], "vars": ["--vars"], "fmt": ["--fmt"], "init": ["--init"], "force": ["hello", "--force"],
-            "quiet": ["hello", "--quiet"], "json": ["hello", "--json"], "debug": ["hello", "--debug"]}
+FLAG_ARGV = {"init": "--init", "fmt": "--fmt", "vars": "--vars", "clean": "--clean", "show": "--show", "quiet": "--quiet", "debug": "--debug", "json": "--json",
+             "force": "--force", "task": "hello"}
 
 
 def c19_scenarios(ctx, abstract, tier):
@@ -118,7 +118,7 @@ def c19_scenarios(ctx, abstract, tier):
             steps = []
             if a["cache"]:
                 steps.append({"cwd": "proj", "argv": ["hello"], "env": {}})           # warm the cache first (only counts if it works)
-            steps.append({"cwd": cwd, "argv": ACT_ARGV[a["action"]], "env": {}})
+            steps.append({"cwd": cwd, "argv": [FLAG_ARGV[f] for f in sorted(a["flags"])], "env": {}})
             scen.append({"id": len(scen) + 1, "files": files, "steps": steps})
             meta.append(a)
     return scen, meta
@@ -134,15 +134,15 @@ def run_c19(ctx):
         sc = []
         for k, st in enumerate(r["steps"]):
             last = k == len(r["steps"]) - 1
-            act = a["action"] if last else "tasks"
+            act = a["action"] if last else "run"
             cwdp = (["proj"] if a["cwd"] == "root" else ["proj", "sub", "deep"]) if last else ["proj"]
             sc.append({"action": act, "kind": a["kind"], "proj": ["proj"], "cwd": cwdp})
             srec.append(step_rec(st, lines=True))
         recs.append({"rel": "C19", "id": s["id"], "scen": sc, "steps": srec})
     bad = judge_all(ctx, recs)
     st = selftest(ctx, [r for i, r in enumerate(recs) if i not in set(bad)], "C19")
-    report_bad(ctx, "C19", bad, recs, scen, lambda i: "action=%s kind=%s cwd=%s gitignore=%s: changed paths %s (exit %s)" % (
-        meta[i]["action"], meta[i]["kind"], meta[i]["cwd"], meta[i]["gitignore"], changed_paths(recs[i]["steps"][-1]), recs[i]["steps"][-1]["exit"]),
+    report_bad(ctx, "C19", bad, recs, scen, lambda i: "flags=%s (dispatches to %s) kind=%s cwd=%s gitignore=%s: changed paths %s (exit %s)" % (
+        sorted(meta[i]["flags"]), meta[i]["action"], meta[i]["kind"], meta[i]["cwd"], meta[i]["gitignore"], changed_paths(recs[i]["steps"][-1]), recs[i]["steps"][-1]["exit"]),
         lambda i: "%s/%s/%s" % (meta[i]["action"], meta[i]["kind"], meta[i]["cwd"]))
     nontriv = sum(1 for r in recs if changed_paths(r["steps"][-1]))
     evidence(ctx, m, recs, nontriv, "abstract scenarios enumerated by TLC from SpokCLI's transition system (spokfile kind x action x cwd x .gitignore x .env x "
@@ -671,7 +671,7 @@ def slim_rec(r):
 def evidence(ctx, m, recs, nontriv, rule, st, samples, extra=None):
     cov = {"states": max(1, m.distinct), "transitions": max(1, m.generated), "traces_validated_against_impl": len(recs), "samples": samples or [{"n": len(recs)}],
            "evaluations": sum(len(r["steps"]) for r in recs), "distinct_nontrivial": nontriv, "rule": rule,
-           "model": {"module": "SpokCLI", "distinct_states": m.distinct, "action_properties": ["FmtOnlyWhenValid", "CacheOnlyByRuns", "ReadOnlyActions"]},
+           "model": {"module": "SpokCLI", "distinct_states": m.distinct, "action_properties": ["FmtOnlyWhenValid", "CacheOnlyByRuns", "ReadOnlyActions", "InitNeverOverwrites"]},
            "judge": {"module": "SpokCLI", "relation": "Conforms_" + ctx.pid}, "selftest_corrupted_record_rejected": st, "exhaustive": ctx.pid == "C19"}
     if extra:
         cov.update(extra)
